@@ -228,7 +228,7 @@ fn vector_consumers() -> Vec<(&'static str, Vec<Op>)> {
 
 pub fn run(p: &Params) -> Report {
     let mut rep = Report::new("C11");
-    rep.rule = "cases = (adversarial program family, size): k nested loops (k = 1..22 quick / ..40 thorough) with 0/1/2/65535 iterations and short/long bodies, sibling loops, overrunning bodies, jump-heavy code, byte-string and vector self-append doubling (1..70 rounds) followed by each consuming opcode in every operand position, random decodable strings. Per case the hooked executor counts executed instructions (must be <= weight), the hooked weight function counts visited opcodes (budget 4n^2+64), a counting allocator measures peak and cumulative bytes during weigh and execute (budget 1 MiB + 4 KiB*(weight+code+heap), cumulative 64x). A family is grown until its first budget excess. Non-trivial = every measured (family,size); distinct by that pair".into();
+    rep.rule = "cases = (adversarial program family, size): k nested loops (k = 1..22 quick / ..40 thorough) with 0/1/2/65535 iterations and short/long bodies, sibling loops, overrunning bodies, loops with an empty body followed by a cheap or a costly instruction (alone, repeated, inside and at the end of an enclosing loop), jump-heavy code, byte-string and vector self-append doubling (1..70 rounds) followed by each consuming opcode in every operand position, random decodable strings. Per case the hooked executor counts executed instructions (must be <= weight), the hooked weight function counts visited opcodes (budget 4n^2+64), a counting allocator measures peak and cumulative bytes during weigh and execute (budget 1 MiB + 4 KiB*(weight+code+heap), cumulative 64x). A family is grown until its first budget excess. Non-trivial = every measured (family,size); distinct by that pair".into();
     let journal = p.journal.as_ref().and_then(|j| std::fs::File::create(j).ok());
     let mut rep2 = Report::new("C11");
     std::mem::swap(&mut rep, &mut rep2);
@@ -265,6 +265,31 @@ pub fn run(p: &Params) -> Report {
             v.extend([Op::Loop(3, 2), Op::Noop, Op::Noop]);
         }
         fams.push(("sibling-loops".into(), k as u64, v));
+    }
+    // loops with an empty body (length 0): weighed as one instruction, whatever follows is weighed once, so it
+    // must also run once - alone, repeated, inside an enclosing loop, and as the last instruction of a body
+    for (tag, pre, then) in [
+        ("noop", vec![], Op::Noop),
+        ("dup", vec![pushi(1)], Op::Dup),
+        ("hash", vec![Op::PushB(vec![7; 32])], Op::Hash(32)),
+        ("add", vec![pushi(1), pushi(1), Op::Dup, Op::Dup, Op::Dup], Op::Add),
+    ] {
+        for k in [1usize, 2, 4, 8, 16] {
+            for (iters, itag) in [(1u16, "1"), (2, "2"), (65535, "65535")] {
+                let mut v = pre.clone();
+                for _ in 0..k {
+                    v.extend([Op::Loop(iters, 0), then.clone()]);
+                }
+                fams.push((format!("empty-body-loop,iters={},then={}", itag, tag), k as u64, v));
+                let mut v = pre.clone();
+                v.push(Op::Loop(k as u16, 2));
+                v.extend([Op::Loop(iters, 0), then.clone()]);
+                fams.push((format!("empty-body-loop-inside-loop,iters={},then={}", itag, tag), k as u64, v));
+                let mut v = pre.clone();
+                v.extend([Op::Loop(k as u16, 2), then.clone(), Op::Loop(iters, 0), Op::Noop]);
+                fams.push((format!("empty-body-loop-ends-enclosing-body,iters={},then={}", itag, tag), k as u64, v));
+            }
+        }
     }
     for n in [4usize, 16, 64, 256, 1024, 4096] {
         // jump-heavy: alternating jumps of gap 0 and 1
